@@ -33,6 +33,12 @@ pub struct Plan {
     /// reorganisation unwinds them)
     #[serde(default = "default_prune")]
     pub prune_after: u64,
+    /// staking family: the wallet of a block producer under social staking, driven at its own interface: blocks
+    /// that pay it ordinary and stake-typed outputs (through Wallet::on_chain_reorganization) and staking
+    /// transactions of varying size built with Wallet::create_staking_transaction (the requirement is a
+    /// configuration value and may differ from the size of the stakes made earlier)
+    #[serde(default)]
+    pub staking: bool,
 }
 
 fn default_prune() -> u64 {
@@ -49,6 +55,7 @@ fn gen(seed: u64, tier: Tier) -> Plan {
         gp: *rng.pick(&[4u64, 5, 6, 8, 100, 100]),
         ops: (0..n).map(|_| Op { k: rng.pick(KINDS).to_string(), a: rng.below(64), b: rng.below(64) }).collect(),
         prune_after: *rng.pick(&[1u64, 2, 3, 8]),
+        staking: rng.chance(1, 10),
     }
 }
 
@@ -74,6 +81,120 @@ fn check_internal(r: &mut RunResult, n: &Node, step: usize, what: &str) {
     }
 }
 
+/// see Plan::staking
+fn staking_family(plan: &Plan) -> RunResult {
+    use saito_core::core::consensus::block::Block;
+    use saito_core::core::consensus::slip::Slip;
+    use saito_core::core::consensus::wallet::Wallet;
+    let mut r = RunResult::default();
+    let key = derive_key(plan.seed, 1);
+    let other = derive_key(plan.seed, 2);
+    let mut wal = Wallet::new(key.sk, key.pk);
+    let mut block_id = 1u64;
+    let mut trace = Digest::new();
+    let mut stakes = 0u64;
+    let mut mixed = 0u64;
+    let check = |r: &mut RunResult, wal: &Wallet, step: usize, what: &str| {
+        let mut sum: u128 = 0;
+        for k in wal.unspent_slips.iter() {
+            match wal.slips.get(k) {
+                Some(s) => sum += s.amount as u128,
+                None => {
+                    r.violate("C19|unspent-slip-not-in-slips", format!("staking family, step {} ({}): an unspent slip key is missing from the slip table", step, what));
+                    return;
+                }
+            }
+        }
+        if sum != wal.get_available_balance() as u128 {
+            r.violate(
+                format!("C19|balance-differs-from-unspent-sum|{}", what),
+                format!("staking family, step {} ({}): available balance {} but unspent slips sum to {}", step, what, wal.get_available_balance(), sum),
+            );
+        }
+    };
+    for (oi, op) in plan.ops.iter().enumerate() {
+        let step = oi + 1;
+        trace.str(&op.k).u64(op.a).u64(op.b);
+        if op.a % 5 < 2 {
+            // a block paying the wallet: 1-3 ordinary outputs, and (every other time) a stake-typed one
+            block_id += 1;
+            let mut tx = Transaction::default();
+            tx.timestamp = block_id;
+            for j in 0..(1 + op.b % 3) {
+                let mut o = Slip::default();
+                o.public_key = key.pk;
+                o.amount = 1_000 + (op.b + 1) * 137 * (j + 1);
+                tx.add_to_slip(o);
+            }
+            if op.a % 5 == 1 {
+                let mut o = Slip::default();
+                o.public_key = key.pk;
+                o.amount = 5_000 + (op.b % 5) * 2_500;
+                o.slip_type = SlipType::BlockStake;
+                tx.add_to_slip(o);
+            }
+            tx.sign(&other.sk);
+            tx.generate(&key.pk, 0, block_id);
+            let mut b = Block::new();
+            b.id = block_id;
+            b.transactions.push(tx);
+            wal.on_chain_reorganization(&b, true, 100_000);
+            check(&mut r, &wal, step, "receive");
+        } else {
+            let amount = 5_000 + (op.b % 7) * 2_500;
+            let unlocked = block_id.saturating_sub(op.a % 3);
+            let staking_before: u128 = wal.staking_slips.iter().filter_map(|k| wal.slips.get(k)).filter(|s| s.block_id <= unlocked).map(|s| s.amount as u128).sum();
+            let normal_before = wal.get_available_balance();
+            match wal.create_staking_transaction(amount, unlocked, 0) {
+                Ok(tx) => {
+                    stakes += 1;
+                    if staking_before > 0 && staking_before < amount as u128 {
+                        mixed += 1;
+                    }
+                    let mut keys: Vec<[u8; 59]> = tx.from.iter().map(|s| s.utxoset_key).collect();
+                    let n = keys.len();
+                    keys.sort();
+                    keys.dedup();
+                    if keys.len() != n {
+                        r.violate("C19|built-tx|same-output-twice", format!("staking family, step {}: the staking transaction references the same output twice", step));
+                    }
+                    let tin: u128 = tx.from.iter().map(|s| s.amount as u128).sum();
+                    let tout: u128 = tx.to.iter().map(|s| s.amount as u128).sum();
+                    if tout > tin {
+                        r.violate("C19|built-tx|spends-more-than-it-consumes|stake", format!("staking family, step {}: staking transaction pays out {} but consumes {}", step, tout, tin));
+                    }
+                    if tx.to.first().map(|s| (s.slip_type, s.amount)) != Some((SlipType::BlockStake, amount)) {
+                        r.violate("C19|built-tx|stake-output-wrong", format!("staking family, step {}: first output is not a stake of {}", step, amount));
+                    }
+                }
+                Err(_) => {
+                    r.probe("wallet_declined_to_stake");
+                    if wal.get_available_balance() != normal_before {
+                        r.violate("C19|balance-changed-by-declined-stake", format!("staking family, step {}: a declined staking request changed the balance from {} to {}", step, normal_before, wal.get_available_balance()));
+                    }
+                }
+            }
+            check(&mut r, &wal, step, "stake");
+        }
+        if !r.violations.is_empty() {
+            break;
+        }
+        r.steps += 1;
+    }
+    r.fault("stake_from_stake_and_ordinary_outputs", mixed);
+    r.probe_n("staking_transactions", stakes);
+    if stakes > 0 {
+        let mut d = Digest::new();
+        for o in &plan.ops {
+            d.str("s").u64(o.a % 5).u64(o.b % 7);
+        }
+        r.nontrivial.push(d.get());
+    }
+    r.state_hash = trace.get();
+    r.trace_hash = trace.get();
+    r
+}
+
 impl Scenario for C19 {
     fn id(&self) -> &'static str {
         "C19"
@@ -81,10 +202,10 @@ impl Scenario for C19 {
     fn meta(&self) -> Meta {
         Meta {
             level: "exploration",
-            rule: "run = producer chain (genesis period in {4,5,6,8,100}) and a wallet node (real Blockchain + Wallet) that receives every block; 5..40/150 operations from {block paying the wallet key, wallet builds a payment with random amount and fee through Transaction::create, multi-payment, spend everything, ask for more than the balance, zero payment, next block includes the pending wallet transactions, plain block, block that ignores them, competing fork of depth 1 .. prune depth + 2 that replaces the last blocks (reorganisation, ends the strict ledger comparison as the property states it for chains without one; block bodies older than the prune depth in {1, 2, 3, 8} are dropped from memory, so the deeper reorganisations unwind blocks that must be read back from the simulated disk)}. After every operation: available balance == sum of unspent slips and every unspent key is in the slip table; while no reorganisation happened: the wallet's unspent set == the reference ledger's in-window spendable outputs of the key minus the inputs of wallet-built transactions that are not confirmed; every wallet-built transaction has distinct inputs, outputs <= inputs in u128, and validates against the ledger it was built on. distinct_nontrivial = distinct event sequences with >= 1 spend and >= 1 receive.",
+            rule: "run = producer chain (genesis period in {4,5,6,8,100}) and a wallet node (real Blockchain + Wallet) that receives every block; 5..40/150 operations from {block paying the wallet key, wallet builds a payment with random amount and fee through Transaction::create, multi-payment, spend everything, ask for more than the balance, zero payment, next block includes the pending wallet transactions, plain block, block that ignores them, competing fork of depth 1 .. prune depth + 2 that replaces the last blocks (reorganisation, ends the strict ledger comparison as the property states it for chains without one; block bodies older than the prune depth in {1, 2, 3, 8} are dropped from memory, so the deeper reorganisations unwind blocks that must be read back from the simulated disk)}. After every operation: available balance == sum of unspent slips and every unspent key is in the slip table; while no reorganisation happened: the wallet's unspent set == the reference ledger's in-window spendable outputs of the key minus the inputs of wallet-built transactions that are not confirmed; every wallet-built transaction has distinct inputs, outputs <= inputs in u128, and validates against the ledger it was built on. One run in ten is the staking family: the wallet of a staking block producer at its own interface - blocks paying it ordinary and stake-typed outputs (Wallet::on_chain_reorganization) and staking transactions of 5000..20000 built with Wallet::create_staking_transaction against stakes of other sizes (the requirement is configuration), so that stakes are assembled from unlocked stake outputs topped up with ordinary ones; the balance/unspent clause and the built-transaction clauses apply. distinct_nontrivial = distinct event sequences with >= 1 spend and >= 1 receive.",
             real: &["Wallet::on_chain_reorganization/add_slip/delete_slip/remove_old_slips/generate_slips", "Transaction::create/create_with_multiple_payments/sign/validate", "Blockchain::add_block (wind/unwind drive the wallet)"],
             stubs: &["SimIo", "SimConfig", "producer chain builder"],
-            assumptions: &["staking slips and NFTs are not generated", "a dropped wallet transaction keeps its inputs committed (the property subtracts pending inputs)"],
+            assumptions: &["NFTs are not generated; staking only in the wallet-interface family", "a dropped wallet transaction keeps its inputs committed (the property subtracts pending inputs)"],
         }
     }
     fn budget(&self, tier: Tier) -> Budget {
@@ -98,6 +219,9 @@ impl Scenario for C19 {
     }
     fn execute(&self, plan: &Value) -> RunResult {
         let plan: Plan = serde_json::from_value(plan.clone()).expect("plan");
+        if plan.staking {
+            return staking_family(&plan);
+        }
         let mut r = RunResult::default();
         let params = Params { genesis_period: plan.gp, heartbeat: 1000, n_users: 3, slips_per_user: 3, base_amount: 1_000_000 };
         let mut rng = Rng::new(mix(plan.seed, 19));
